@@ -147,6 +147,11 @@ func (c *stateCtx) runCase(it item, path string) (o outcome) {
 		o.class, o.result = "n/a", "n/a"
 		return
 	}
+	if d.Seq == "poolhist" {
+		base.Why = c.ph[d.PH].V.Why
+		c.runPoolHist(d, &o, bad)
+		return
+	}
 	ctl, err := c.control()
 	if err != nil {
 		o.harness = "control replica: " + err.Error()
